@@ -40,7 +40,8 @@ let parse_cfg cfg toks =
   | "app" :: id :: b :: [] -> { cfg with c_apps = cfg.c_apps @ [ (z id, bool_of_tok b) ] }
   | _ -> failwith "bad cfg line"
 
-let empty_state = { lends = []; borrows = []; sstats = []; bnk = { bal = []; sup = [] }; lctr = BinNums.Z0; bctr = BinNums.Z0; prices = [] }
+let empty_state = { lends = []; borrows = []; sstats = []; bnk = { bal = []; sup = [] }; lctr = BinNums.Z0; bctr = BinNums.Z0; prices = [];
+                    killed = []; depr = [] }
 
 (* one projection line into the observed state *)
 let obs_line (st : state) toks : state =
@@ -77,6 +78,10 @@ let obs_line (st : state) toks : state =
       | _ -> failwith "pr" in
     { st with prices = go rest [] }
   | "ct" :: a :: b :: [] -> { st with lctr = z a; bctr = z b }
+  | "fl" :: rest ->
+    let (kl, rest) = take_list rest in
+    let (dp, _) = take_list rest in
+    { st with killed = kl; depr = dp }
   | _ -> failwith ("bad obs line: " ^ S.concat " " toks)
 
 let ints l = S.concat "," (L.map zs l)
@@ -109,6 +114,7 @@ let lines_of (obs : state) (st : state) : (string * string) list =
   L.iter (fun (d, _) -> add (Printf.sprintf "supply[%s]" (zs d)) (zs (supply st.bnk d))) obs.bnk.sup;
   L.iter (fun (a, _) -> add (Printf.sprintf "price[%s]" (zs a)) (match zget st.prices a with Some v -> zs v | None -> "-")) obs.prices;
   add "lctr" (zs st.lctr); add "bctr" (zs st.bctr);
+  add "killed" (ints (L.sort compare st.killed)); add "depreciated" (ints st.depr);
   L.rev !out
 
 let parse_op toks : string * op * string =
@@ -145,6 +151,8 @@ let parse_op toks : string * op * string =
      | _ -> failwith "repaywithdraw")
   | "fundmod" :: u :: p :: a :: d :: amt :: res :: [] -> ("fundmod", OFundMod (z u, z p, z a, z d, z amt), res)
   | "fundreserve" :: u :: a :: d :: amt :: res :: [] -> ("fundreserve", OFundReserve (z u, z a, z d, z amt), res)
+  | "kill" :: adm :: app :: on :: res :: [] -> ("kill", OKill (bool_of_tok adm, z app, bool_of_tok on), res)
+  | "depreciate" :: p :: res :: [] -> ("depreciate", ODepreciate (z p), res)
   | "setprice" :: a :: "-" :: res :: [] -> ("setprice", OSetPrice (z a, None), res)
   | "setprice" :: a :: p :: res :: [] -> ("setprice", OSetPrice (z a, Some (z p)), res)
   | _ -> failwith ("bad op: " ^ S.concat " " toks)
@@ -289,6 +297,8 @@ let run (path : string) =
         let (kind, o, res) = parse_op rest in
         Buffer.add_string sig_ (S.concat " " rest); Buffer.add_char sig_ ';';
         bump ("op:" ^ kind ^ ":" ^ res);
+        if !cur_obs.killed <> [] then bump ("under_kill_switch:" ^ kind ^ ":" ^ res);
+        if !cur_obs.depr <> [] then bump ("with_depreciated_pool:" ^ kind ^ ":" ^ res);
         (let d = int_of_string dt in
          bump ("gap:" ^ (if d = 0 then "0" else if d < 3600 then "<1h" else if d < 86400 * 30 then "<30d" else if d < 31557600 then "<1y" else ">=1y")));
         if kind = "borrow" && res = "ok" then interesting := true;
@@ -318,7 +328,7 @@ let run (path : string) =
           (match !pending with Some (kind, o, res, _) -> check_props kind o res | None -> ());
           pending := None
         end
-      | ("st" | "ld" | "bw" | "bl" | "sp" | "pr" | "ct") :: _ as toks -> cur_obs := obs_line !cur_obs toks
+      | ("st" | "ld" | "bw" | "bl" | "sp" | "pr" | "ct" | "fl") :: _ as toks -> cur_obs := obs_line !cur_obs toks
       | _ -> ()
     ) lines;
   end_case ();
